@@ -3,11 +3,15 @@
    operators = Symbol tokens, names = Word tokens); tnode is the reference syntax tree with every spelling
    (# / #if / ^ / #unless, closed by name / if / unless, two or three braces on either tag independently, comments with
    arbitrary bodies); flat prints a tree to tokens, shape is the parsed form, render_spec the reference semantics.
-   Whitespace tokens inside tags are skipped by the lexical analysis (lex_tok, TWhitespace) and are exercised by the
-   correspondence; the string level (tokenizer in front) rests on C04/C15 for the mustache tokenizer. *)
+   Whitespace tokens inside tags are skipped by the lexical analysis (lex_tok, TWhitespace).
+   String level (theorems C10_template_text_...): parse_template = mustache tokenizer with the parser's options + lexical analysis +
+   section parser; for every text that is a sequence of template lexemes (MustacheStep.mlex: text outside tags up to the
+   next "{{", the generic tokenizer's lexemes inside tags, the text/tag mode flag) the tokenizer returns exactly those
+   lexemes and the token-level theorems hold of the text. *)
 From Coq Require Import List ZArith Bool Lia.
 Import ListNotations.
 Require Import Mustache MustacheSpec MustacheReject.
+Require Base Tokenizer TokModel LexGrammar ExprString MustacheStep MustacheString.
 Open Scope Z_scope.
 
 (* lexical analysis + section parsing of ANY well-formed template (any nesting depth, any mix, any spelling) yields exactly its tree *)
@@ -44,6 +48,28 @@ Example C10_nonvacuous :
   wfs t /\ render (fun s => s) (fun s => 33 :: s) [([97], [49]); ([98], [50])] (shapes t) = [120; 33; 50].
 Proof. split; [cbn; repeat split; try discriminate; repeat constructor|vm_compute; reflexivity]. Qed.
 
+(* ---- at string level ---- *)
+Theorem C10_template_text_is_tokenized_as_its_lexemes : forall ls : list (Base.ttype * Base.str),
+  Base.wf_str (MustacheStep.text_of ls) -> MustacheStep.mlex true ls -> MustacheString.plain_tags ls -> MustacheString.spaced Base.Unknown (map fst ls) ->
+  exists ts, TokModel.tokenize_with TokModel.TMustache ExprString.parser_opts (MustacheStep.text_of ls) = Tokenizer.Ok ts /\
+             map (fun t => (Base.ty t, Base.value t)) ts = ls.
+Proof. exact MustacheString.template_text_is_tokenized_as_its_lexemes. Qed.
+Theorem C10_template_text_is_parsed_as_its_tokens : forall ls : list (Base.ttype * Base.str),
+  Base.wf_str (MustacheStep.text_of ls) -> MustacheStep.mlex true ls -> MustacheString.plain_tags ls -> MustacheString.spaced Base.Unknown (map fst ls) ->
+  Forall MustacheString.blank_ok ls ->
+  MustacheString.parse_template (MustacheStep.text_of ls) = lex_then_parse (MustacheString.strip ls).
+Proof. exact MustacheString.parse_template_of_text. Qed.
+Theorem C10_template_text_parses_to_its_tree : forall (ls : list (Base.ttype * Base.str)) ts,
+  Base.wf_str (MustacheStep.text_of ls) -> MustacheStep.mlex true ls -> MustacheString.plain_tags ls -> MustacheString.spaced Base.Unknown (map fst ls) ->
+  Forall MustacheString.blank_ok ls -> MustacheString.strip ls = flats ts -> wfs ts -> ts <> TNil ->
+  MustacheString.parse_template (MustacheStep.text_of ls) = Ok (shapes ts).
+Proof. exact MustacheString.template_text_parses_to_its_tree. Qed.
+(* non-vacuity:  Hi {{#if a}}{{{b}}}{{/if}}!  is such a text *)
+Example C10_template_text_premises_satisfiable :
+  MustacheStep.mlex true MustacheString.sample_template /\
+  MustacheString.parse_template (MustacheStep.text_of MustacheString.sample_template) = Ok (shapes MustacheString.sample_tree).
+Proof. exact (conj MustacheString.sample_template_is_lexemes MustacheString.sample_template_parses). Qed.
+
 Print Assumptions C10_well_formed_templates_parse_to_their_tree.
 Print Assumptions C10_rendering_is_the_reference_semantics.
 Print Assumptions C10_unclosed_tag_is_rejected.
@@ -51,3 +77,6 @@ Print Assumptions C10_mismatched_brace_counts_are_rejected.
 Print Assumptions C10_unopened_section_is_rejected.
 Print Assumptions C10_unclosed_section_is_rejected.
 Print Assumptions C10_mismatched_section_is_rejected.
+Print Assumptions C10_template_text_is_tokenized_as_its_lexemes.
+Print Assumptions C10_template_text_is_parsed_as_its_tokens.
+Print Assumptions C10_template_text_parses_to_its_tree.
